@@ -136,4 +136,13 @@ theorem version_bytes_match :
     `param:` / `field:` / `deref:` origin and breaks this obligation. -/
 theorem lib_writes_only_fresh_buffers : GoBT.Script.WriteReviewLib.writesOkFor "C15" = true := by decide +kernel
 
+/-- **Every way of building the script agrees**: the script built from the address derived from a 20-byte hash
+    (`NewP2PKHFromAddress`, hence `PayToAddress`, `AddP2PKHOutputFromAddress`, `ChangeToAddress`) is the canonical script
+    built from the hash itself (`NewP2PKHFromPubKeyHash`, hence the key routes), on either network. -/
+theorem script_from_derived_address_is_canonical (H : Hash) (hH : ∀ b, 4 ≤ (H b).length) (mainnet : Bool) (h : Bytes)
+    (hl : h.length = 20) : p2pkhFromAddress H (encodeAddress H mainnet h) = .ok (p2pkhScript h) := by
+  unfold p2pkhFromAddress
+  rw [address_round_trip H hH mainnet h hl]
+  simp [p2pkhScript, hl]
+
 end GoBT.C15
